@@ -17,6 +17,7 @@ RULE = (
     "random products of affine forms (Hypothesis) and compares with the closed-form integral of the expanded product; "
     "family 'structure' checks domain membership, weight sum, boundary variants and permutation. "
     "Non-trivial: a polynomial that is not constant (degree >= 1 in some variable) resp. a scheme with > 1 point."
+    ' Every scheme must be bit-identical after its auxiliary methods (plot with a stand-in plotter, weighted on/off; inv()).'
 )
 ASSUMPTIONS = [
     "decimal tables are required exact to the number of digits they print (tolerances per scheme in TOL)",
